@@ -493,7 +493,7 @@ func TestC03(t *testing.T) {
 	r := R("C03")
 	t0 := time.Now()
 	if os.Getenv("VERIF_C03_POP") == "generated" { // development knob: generated population only
-		c03Generated.Run(t, scale(80, 900))
+		c03Generated.Run(t, scale(80, 600))
 		return
 	}
 	files := c03Corpus()
@@ -513,7 +513,7 @@ func TestC03(t *testing.T) {
 	if len(rejected) > 0 {
 		r.Note(fmt.Sprintf("corpus-rejected-shard-%d", cfg.Shard), strings.Join(rejected, " "))
 	}
-	k := scale(2, 24)
+	k := scale(2, 16)
 	bad := 0
 sweep:
 	for _, f := range files {
@@ -536,8 +536,8 @@ sweep:
 	if t.Failed() {
 		return
 	}
-	c03Generated.Run(t, scale(80, 900))
+	c03Generated.Run(t, scale(80, 600))
 	t.Logf("generated done at %v", time.Since(t0))
-	c03Multi.Run(t, scale(60, 600))
+	c03Multi.Run(t, scale(60, 400))
 	t.Logf("multi-file done at %v", time.Since(t0))
 }
